@@ -304,14 +304,34 @@ def _rule_c05_r4(model: Model) -> RuleResult:
     opts = ['self.out_name', 'self.rename', 'self.aliases', 'self.in_names', '$in_rename', '$out_rename']
     base_nz = Normalizer(model, f, cfg_of(model, f))
 
+    # locals that are only shorter names for a setting (`rename = self.rename`), and locals that count settings
+    aliases: t.Dict[str, str] = {}
+    counters: t.Dict[str, ast.Call] = {}
+    for st_ in ast.walk(f.node):
+        if isinstance(st_, ast.Assign) and len(st_.targets) == 1 and isinstance(st_.targets[0], ast.Name):
+            nm_ = st_.targets[0].id
+            n_defs = sum(1 for y_ in ast.walk(f.node) if isinstance(y_, ast.Name) and isinstance(y_.ctx, ast.Store) and y_.id == nm_)
+            if n_defs == 1 and isinstance(st_.value, ast.Attribute) and unparse(st_.value).startswith('self.'):
+                aliases[nm_] = unparse(st_.value)
+            if n_defs == 1 and isinstance(st_.value, ast.Call) and isinstance(st_.value.func, ast.Name) and st_.value.func.id == 'sum':
+                counters[nm_] = st_.value
+
     def make_oracle(combo: t.Dict[str, bool], pnames: t.Optional[t.Dict[str, str]] = None) -> t.Callable[[ast.expr], t.Optional[bool]]:
         # ``pnames``: inside a helper, its parameter names -> the normal form of what make_field passes for them
+        def key_of(nm: str) -> str:
+            nm = aliases.get(nm, nm) if pnames is None else nm
+            return nm if nm.startswith('self.') else (pnames.get(nm, f'${nm}') if pnames is not None else f'${nm}')
+
         def oracle(test: ast.expr) -> t.Optional[bool]:
+            # a count of the settings given, held in a local (`n = sum(1 for p in (a, b, c) if p is not None)`)
+            if isinstance(test, ast.Compare) and len(test.ops) == 1 and isinstance(test.left, ast.Name) and test.left.id in counters \
+                    and pnames is None:
+                test = ast.Compare(left=counters[test.left.id], ops=test.ops, comparators=test.comparators)
             # X is None / X is not None
             if isinstance(test, ast.Compare) and len(test.ops) == 1 and isinstance(test.ops[0], (ast.Is, ast.IsNot)) \
                     and isinstance(test.comparators[0], ast.Constant) and test.comparators[0].value is None:
                 nm = unparse(test.left)
-                key = nm if nm.startswith('self.') else (pnames.get(nm, f'${nm}') if pnames is not None else f'${nm}')
+                key = key_of(nm)
                 if key in combo:
                     given = combo[key]
                     return (not given) if isinstance(test.ops[0], ast.Is) else given
@@ -321,7 +341,7 @@ def _rule_c05_r4(model: Model) -> RuleResult:
                     and isinstance(test.left.func, ast.Name) and test.left.func.id == 'sum' and isinstance(test.comparators[0], ast.Constant):
                 g = test.left.args[0] if test.left.args else None
                 if isinstance(g, ast.GeneratorExp) and isinstance(g.generators[0].iter, ast.Tuple):
-                    names = [unparse(e) for e in g.generators[0].iter.elts]
+                    names = [key_of(unparse(e)) for e in g.generators[0].iter.elts]
                     if all(nm in combo for nm in names):
                         cnt = sum(1 for nm in names if combo[nm])
                         k = test.comparators[0].value
